@@ -62,6 +62,7 @@ type Run struct {
 	Outcomes  map[string]int
 	samples   []any
 	maxSample int
+	Harness   bool // a harness error occurred: exit 2 without VIOLATION
 }
 
 func Start(prop string) *Run {
@@ -156,6 +157,11 @@ func (r *Run) Finish() int {
 	if len(r.Outcomes) < 2 {
 		fmt.Printf("VACUOUS: property=%s only %d outcome class(es) observed: %v\n", r.Prop, len(r.Outcomes), r.Outcomes)
 	}
+	if r.Assume == nil {
+		r.Assume = []string{}
+	}
+	r.Assume = append(r.Assume, "Go toolchain as installed (go1.23); go list / x/tools/go/packages / jennifer behave deterministically",
+		"finite alphabets and bounds as listed under coverage; nothing outside them is claimed")
 	e := Evidence{PropertyID: r.Prop, Tier: r.Tier, Seed: r.Seed, Level: "model_checking", Coverage: cov,
 		Assumptions: r.Assume, WallS: time.Since(r.start).Seconds(), Violations: len(r.viol)}
 	b, _ := json.MarshalIndent(e, "", " ")
@@ -164,6 +170,10 @@ func (r *Run) Finish() int {
 	fmt.Printf("%s tier=%s wall=%.1fs violations=%d known=%d outcomes=%v\n", r.Prop, r.Tier, e.WallS, len(r.viol), len(r.known), r.Outcomes)
 	if len(r.viol) > 0 {
 		return 1
+	}
+	if r.Harness {
+		fmt.Printf("HARNESS-ERROR: property=%s the check could not complete (see stderr); no verdict\n", r.Prop)
+		return 2
 	}
 	if len(r.Outcomes) < 2 {
 		return 3
